@@ -7,10 +7,11 @@ The fault engine enumerates fault operators over the bytes of the two real .nzd 
     Ins(p, b)         insert a byte before p      b = 0x80
     Del(p)            delete byte p
     Sub^k             k <= 4 simultaneous substitutions inside one 6-byte framing window (field id, length, first payload bytes)
+    MaxLen(j)         the Sub^4 that turns field j's length into a 5-byte varint (0xFF x 4): declared lengths up to 32 GiB
 
 and runs, for every faulted stream, the REAL loader:  TzdbDateTimeZoneSource.from_stream, then version_id, get_ids(),
 DateTimeZoneCache(source), and source.for_id(id) / cache[id] for every id whose decoding can read a changed byte.
-Each call runs under a watchdog (signal.setitimer, 5 s) with RLIMIT_AS = baseline + 1 GiB.
+Each call runs under a watchdog (signal.setitimer on the process CPU clock, 5 s) with RLIMIT_AS = baseline + 1 GiB.
 
 Oracle: a call returns, or raises InvalidPyodaDataError (cache construction / cache[id] may also raise the documented
 InvalidDateTimeZoneSourceError).  Anything else - another exception type, the watchdog, MemoryError - is a violation
@@ -84,7 +85,7 @@ def init_limits():
     global _LIMITS_SET
     if _LIMITS_SET:
         return
-    signal.signal(signal.SIGALRM, _on_alarm)
+    signal.signal(signal.SIGPROF, _on_alarm)
     vm = 0
     try:
         with open("/proc/self/status") as f:
@@ -105,13 +106,15 @@ def init_limits():
 
 
 def guarded(fn, limit=TIME_LIMIT_S):
-    """-> (status, value-or-exception); status in ok / exc / timeout / memory"""
-    signal.setitimer(signal.ITIMER_REAL, limit)
+    """-> (status, value-or-exception); status in ok / exc / timeout / memory.
+    The timer counts the CPU time of this process (ITIMER_PROF), so a busy machine cannot fake a hang; the loader works on
+    in-memory streams, a call that does not return is therefore a call that keeps computing."""
+    signal.setitimer(signal.ITIMER_PROF, limit)
     try:
         try:
             return "ok", fn()
         finally:
-            signal.setitimer(signal.ITIMER_REAL, 0)
+            signal.setitimer(signal.ITIMER_PROF, 0)
     except Timeout:
         return "timeout", None
     except MemoryError as e:
@@ -320,7 +323,6 @@ def fault_text(fault):
 
 # ---------------------------------------------------------------------------------------------- one execution
 
-ALLOWED_EVERYWHERE = ()
 _PY = '''import io
 
 from pyoda_time.time_zones import DateTimeZoneCache, InvalidDateTimeZoneSourceError
@@ -357,6 +359,11 @@ def py_text(fc, fault, ids):
     return _PY % {"path": fc.path, "apply": ap, "ids": "ids" if ids is None else repr(list(ids))}
 
 
+def tname(e):
+    t = type(e)
+    return t.__name__ if t.__module__ in ("builtins", "pyoda_time.utility._invalid_pyoda_data_exception") or t.__module__.startswith("pyoda_time") else "%s.%s" % (t.__module__, t.__name__)
+
+
 def chain(e):
     """the last pyoda_time frames of the traceback, outermost first"""
     out = []
@@ -381,18 +388,20 @@ class Exec:
         self.calls = 0
         self.observed = False   # something differs from the undamaged run
 
-    def call(self, name, fn, allowed, zid=None, same_root_as=None):
+    def call(self, name, fn, allowed, zid=None, same_root_as=None, retry=None):
         """same_root_as: the class the preceding for_id(zid) ended in - cache[zid] delegating to for_id and failing the
         same way is the same root cause and gets no key of its own"""
         self.calls += 1
         st, val = guarded(fn)
+        if st in ("timeout", "memory") and retry is not None:
+            st, val = guarded(retry())       # reported only when it happens twice
         if st == "ok":
             self.acc.outcome("%s: ok" % name)
             self.vector.append((name, zid, "ok"))
             return True, val
         self.observed = True
         if st == "exc" and isinstance(val, allowed):
-            label = type(val).__name__
+            label = tname(val)
             self.acc.outcome("%s: %s" % (name, label))
             self.vector.append((name, zid, label))
             return False, val
@@ -402,11 +411,15 @@ class Exec:
                 # not raised inside pyoda_time at all: a harness problem unless it came through library code
                 if not any("/pyoda_time/" in fr.filename.replace("\\", "/") for fr in traceback.extract_tb(val.__traceback__)):
                     raise val
-            label = "%s/%s" % (type(val).__name__, site)
-            what = "%s raised %s(%s) via %s" % (name, type(val).__name__, str(val)[:160].replace("\n", " "), " > ".join(chain(val)))
+            label = "%s/%s" % (tname(val), site)
+            what = "%s raised %s(%s) via %s" % (name, tname(val), str(val)[:160].replace("\n", " "), " > ".join(chain(val)))
         elif st == "timeout":
+            HANGS[0] += 1
+            if ALL_HANGS is not None:
+                with ALL_HANGS.get_lock():
+                    ALL_HANGS.value += 1
             label = "timeout"
-            what = "%s did not return within %.0f s" % (name, TIME_LIMIT_S)
+            what = "%s did not return within %.0f s of CPU time (twice)" % (name, TIME_LIMIT_S)
         else:
             label = "MemoryError/%s" % exc_site(val)
             what = "%s exhausted memory (more than 1 GiB above the baseline)" % name
@@ -425,6 +438,14 @@ class Exec:
 
 DATA_ERR = None
 CACHE_ERR = None
+HANGS = [0]          # confirmed time-outs in the current shard
+MAX_HANGS = 2        # after that the shard is abandoned (each confirmed hang costs 2 x 5 s of CPU)
+ALL_HANGS = None     # multiprocessing.Value shared by the workers: confirmed time-outs of the whole run
+MAX_ALL_HANGS = 12   # after that every remaining shard is skipped (the verdict is a violation anyway)
+
+
+class ShardAbandoned(Exception):
+    pass
 
 
 def _errs():
@@ -436,17 +457,18 @@ def _errs():
 
 def after_load(ex, src, pick_ids):
     """version_id, get_ids, cache, then for_id / cache[id] for the ids chosen by pick_ids(list of ids)"""
-    ok, _ = ex.call("version_id", lambda: src.version_id, DATA_ERR)
-    ok, ids = ex.call("get_ids", lambda: list(src.get_ids()), DATA_ERR)
+    ok, _ = ex.call("version_id", lambda: src.version_id, DATA_ERR, retry=lambda: (lambda: src.version_id))
+    ok, ids = ex.call("get_ids", lambda: list(src.get_ids()), DATA_ERR, retry=lambda: (lambda: list(src.get_ids())))
     if not ok:
         return None
     if set(ids) != ex.fc.all_ids:
         ex.observed = True
-    okc, cache = ex.call("cache_ctor", lambda: DateTimeZoneCache(src), CACHE_ERR)
+    okc, cache = ex.call("cache_ctor", lambda: DateTimeZoneCache(src), CACHE_ERR, retry=lambda: (lambda: DateTimeZoneCache(src)))
     for zid in pick_ids(ids):
-        ex.call("for_id", lambda zid=zid: src.for_id(zid), DATA_ERR, zid)
+        ex.call("for_id", lambda zid=zid: src.for_id(zid), DATA_ERR, zid, retry=lambda zid=zid: (lambda: src.for_id(zid)))
         if okc:
-            ex.call("cache_getitem", lambda zid=zid: cache[zid], CACHE_ERR, zid, same_root_as=ex.vector[-1][2])
+            ex.call("cache_getitem", lambda zid=zid: cache[zid], CACHE_ERR, zid, same_root_as=ex.vector[-1][2],
+                    retry=lambda zid=zid: (lambda: DateTimeZoneCache(src)[zid]))
     return ids
 
 
@@ -457,7 +479,7 @@ def pick_for(fc, acc, role, j, faulted_payload, everything):
     """which ids can read a changed byte (see module docstring); returns a function of the loaded id list"""
     def pick(ids):
         idset = set(ids)
-        new = [i for i in ids if i not in fc.all_ids]
+        new = sorted(i for i in ids if i not in fc.all_ids)
         chosen = []
         if everything:
             return list(ids)
@@ -553,7 +575,8 @@ def run_public(acc, fc, fault, pick, seam="public"):
     if pick is None:
         pick = pick_for_stream(fc, acc, faulted)
     stream = io.BytesIO(faulted)
-    ok, src = ex.call("from_stream", lambda: TzdbDateTimeZoneSource.from_stream(stream), DATA_ERR)
+    ok, src = ex.call("from_stream", lambda: TzdbDateTimeZoneSource.from_stream(stream), DATA_ERR,
+                      retry=lambda: (lambda: TzdbDateTimeZoneSource.from_stream(io.BytesIO(faulted))))
     if ok:
         after_load(ex, src, pick)
     return ex
@@ -562,7 +585,7 @@ def run_public(acc, fc, fault, pick, seam="public"):
 def run_seam(acc, fc, fault, j, payload, pick):
     _errs()
     ex = Exec(acc, fc, fault, "field")
-    ok, src = ex.call("from_stream", lambda: fc.seam_load(j, payload), DATA_ERR)
+    ok, src = ex.call("from_stream", lambda: fc.seam_load(j, payload), DATA_ERR, retry=lambda: (lambda: fc.seam_load(j, payload)))
     if ok:
         after_load(ex, src, pick)
     return ex
@@ -570,6 +593,11 @@ def run_seam(acc, fc, fault, j, payload, pick):
 
 def account(acc, ex):
     acc.count(states=1, evaluations=1, transitions=ex.calls, nontrivial=1 if ex.observed else 0)
+    if not acc.samples and ex.observed:
+        acc.sample({"file": ex.fc.name, "fault": fault_text(ex.fault), "seam": ex.seam,
+                    "calls": ["%s%s -> %s" % (c, "(%s)" % z if z else "", o) for c, z, o in ex.vector[:6]]})
+    if HANGS[0] >= MAX_HANGS:
+        raise ShardAbandoned()
 
 
 # ---------------------------------------------------------------------------------------------- shard worker
@@ -607,6 +635,20 @@ def shard(item):
     init_limits()
     acc = Acc()
     t0 = time.process_time()
+    HANGS[0] = 0
+    if ALL_HANGS is not None and ALL_HANGS.value >= MAX_ALL_HANGS:
+        acc.cap("shards skipped after %d confirmed time-outs in this run" % MAX_ALL_HANGS)
+        return kind, acc
+    try:
+        _shard_body(acc, fc, kind, item)
+    except ShardAbandoned:
+        acc.cap("a shard was abandoned after %d confirmed time-outs (reported as violations); the rest of that shard was not run" % MAX_HANGS)
+    acc.note("cpu_s", round(time.process_time() - t0, 2))
+    return kind, acc
+
+
+def _shard_body(acc, fc, kind, item):
+    fi = item[1]
     if kind == "trunc":
         for p in _positions(item[2]):
             ex = run_public(acc, fc, ("T", p), None)
@@ -658,13 +700,20 @@ def shard(item):
                 acc.outcome("seam-equivalence: %s" % ("same" if v1 == v2 else "DIFFERENT"))
                 if v1 != v2:
                     d = [x for x in v1 if x not in v2][:3], [x for x in v2 if x not in v1][:3]
-                    acc.violation("C20/harness/seam-equivalence/fid%d" % f.fid,
-                                  "field seam and public seam classify %s on %s differently: field-only %r, public-only %r - the field-seam results for this field kind cannot be trusted"
-                                  % (fault_text(fault), fc.name, d[0], d[1]), {"file": fc.name, "fault": list(fault)})
+                    # not a property violation (the public-seam run above has been judged by the oracle); it means the
+                    # field-seam results for this field kind cannot be trusted on this tree
+                    acc.degrade("field seam and public seam classify a fault in a field of id %d differently (%s on %s: field-only %r, public-only %r)"
+                                % (f.fid, fault_text(fault), fc.name, d[0], d[1]))
+    elif kind == "maxlen":
+        # Sub^4: the four bytes from the first length byte of a field on are set to 0xFF (a 5-byte varint whose top byte is
+        # whatever follows): declared lengths of up to 32 GiB
+        for j in _positions(item[2]):
+            f = fc.fields[j]
+            ps = [p for p in range(f.len_start, f.len_start + 4) if p < len(fc.data)]
+            ex = run_public(acc, fc, ("S", tuple((p, 0xFF) for p in ps)), None)
+            account(acc, ex)
     else:
         raise AssertionError(kind)
-    acc.note("cpu_s", round(time.process_time() - t0, 2))
-    return kind, acc
 
 
 # ---------------------------------------------------------------------------------------------- enumeration plans
@@ -742,6 +791,7 @@ def plan(tier, seed, seam_ok, notes):
                 for sh in range(nsh):
                     items.append(("tuples", fi, w0, 2, kmax, 3, sh, nsh))
             notes.setdefault("tuple_windows", {})[fc.name] = [0, fc.fields[0].start, first_zone.start, fc.fields[-1].start]
+            items += listed("maxlen", fi, range(len(fc.fields)), 30)
             # seam equivalence sample
             if seam_ok:
                 ep = set()
@@ -795,6 +845,7 @@ def plan(tier, seed, seam_ok, notes):
             wins = [0, fc.fields[0].start, zf[0].start, zf[len(zf) // 2].start, by_size[-1].start, tailed[0].start if tailed else zf[1].start]
             wins += [f.start for f in fc.fields if f.fid in (2, 3)]
             notes.setdefault("tuple_windows", {})[fc.name] = wins
+            items += listed("maxlen", fi, range(len(fc.fields)), 30)
             for w0 in wins:
                 nsh = 4 if w0 < 64 else 24
                 for sh in range(nsh):
@@ -831,7 +882,8 @@ def run(ctx):
         "a single substitution strictly inside one field's payload can only change that field's handler and zones decoded from "
         "that field (string pool: every handler) - checked on the seam-equivalence subset, which runs both seams",
         "string-pool strings are opaque to zone decoding: at most 6 (quick) / 24 (thorough) dependent zones are fetched per pool or id-map fault (cap reported)",
-        "prompt = every call returns within %.0f s (nominal load 25 ms) and within 1 GiB above the worker's baseline" % TIME_LIMIT_S,
+        "prompt = every call returns within %.0f s of CPU time (nominal load 25 ms; CPU time so that a busy machine cannot fake a hang; "
+        "a time-out is reported only if it repeats) and within 1 GiB above the worker's baseline" % TIME_LIMIT_S,
     ]
     if _BIND_ERROR:
         ctx.degrade("loader not reachable (%s): nothing checked" % _BIND_ERROR)
@@ -880,6 +932,9 @@ def run(ctx):
     rot = ctx.seed % max(1, len(items))
     items = items[rot:] + items[:rot]
     cpu = {}
+    global ALL_HANGS
+    import multiprocessing
+    ALL_HANGS = multiprocessing.get_context("fork").Value("i", 0)
     for kind, acc in pmap(shard, items):
         cpu[kind] = cpu.get(kind, 0) + acc.notes.pop("cpu_s", 0)
         ctx.merge_part(kind, acc)
@@ -887,7 +942,6 @@ def run(ctx):
     for k, v in notes.items():
         ctx.note(k, v)
     ctx.note("files", {fc.name: {"bytes": len(fc.data), "fields": len(fc.fields), "zone_fields": len(fc.zone_id)} for fc in _FILES})
-    ctx.sample({"file": _FILES[0].name, "fault": "Trunc(3)", "calls": ["from_stream"]})
     # the declared space (every prefix, every k<=4 corruption at every position) is far larger than what is enumerated
     ctx.exhaustive = False
 
@@ -908,4 +962,5 @@ def replay(rec):
     run_public(acc, fc, fault, (lambda ids: [zid] if zid in ids else []) if zid else (lambda ids: ids))
     for k, v in acc.violations.items():
         print(k, v[0])
-    return bool(acc.violations)
+    call = "C20/%s/" % case.get("call")
+    return rec.get("key") in acc.violations or any(k.startswith(call) for k in acc.violations)
